@@ -26,7 +26,7 @@ open Core
 structure CfgOK (nowMS : Int) (c : C) : Prop where
   now : 0 ≤ nowMS ∧ nowMS ≤ maxTimeS * 1000
   start : -maxTimeS ≤ c.start ∧ c.start ≤ maxTimeS
-  stop : ∀ s, c.stop = some s → -maxTimeS ≤ s ∧ s ≤ maxTimeS
+  stop : ∀ s, c.stop = some s → -maxTimeS ≤ s ∧ s ≤ maxTimeS ∧ c.start ≤ s   -- (`fix:` commit) never before the start
   tsdur : 0 < c.tsdur
   tsreg : c.tsreg = 0 ∨ c.tsreg = 1
   mup : ∀ m, c.mup = some m → 0 < m
@@ -189,7 +189,10 @@ theorem c08_cfg_invariant (nowMS : Int) (parts : List Part) (c : C) (idx : Nat)
   obtain ⟨e1, e2, e3, e4, e5, e6, e7, e8, e9, e10, e11, e12, e13, e14⟩ := hfields
   refine ⟨by omega, ?_, ?_, ?_, ?_, ?_, ?_, ?_, ?_, ?_, ?_, ?_, ?_, ?_, ?_⟩
   · rw [e1]; exact hto _ hstart
-  · rw [e2]; intro s hs; rw [hs] at hstop; exact hto _ (by simpa using hstop)
+  · rw [e2, e1]; intro s hs; rw [hs] at hstop
+    simp only [Bool.and_eq_true, Bool.not_eq_true', decide_eq_true_eq] at hstop
+    have := hto _ hstop.1
+    exact ⟨this.1, this.2, hstop.2⟩
   · rw [e3]; exact htsdur
   · rw [e4]; omega
   · rw [e5]; intro m hm; rw [hm] at hmup; simpa using hmup
@@ -471,7 +474,8 @@ def divDischarge : List (Nat × Reason) := [
   (3283230032, .assetLoad),  -- splitPeriod: / segDur
   (1962945513, .assetLoad),  -- splitPeriod: % SegmentDurMS
   (237660192, .assetLoad),   -- writeChunkedSegment: / MediaTimescale
-  (3511751126, .localGuard), -- patch.pyMod: (x+y) % y                   (y = 2 or Z = 2*min(N,M)+2 >= 2)
+  (1508675323, .localGuard), -- patch.pyMod: ((x%y)+y) % y               (y = 2 or Z = 2*min(N,M)+2 >= 2; rewritten by fix 4489729)
+  (1299052647, .localGuard), -- patch.pyMod: x % y                       (same divisor)
   (886030591, .localGuard),  -- recv.GCDuint32: a % b                    (inside `for b != 0`)
   (3452655562, .recvGuard),  -- SegmentHandlerFunc: / segDur             (under the callback's recover)
   (3346616588, .recvGuard),  --   / timeScaleIn
